@@ -18,6 +18,7 @@ type zzUDPConn struct {
 	wsess   []uint32 // (filled by the harness when needed)
 	closes  int
 	replies chan zzReply // replies from "the Internet"; closed = socket error
+	closed  chan struct{} // closed by Close(): unblocks a pending ReadFrom like a real socket
 	io      *zzUDPIO
 }
 
@@ -27,15 +28,21 @@ type zzReply struct {
 }
 
 func (c *zzUDPConn) ReadFrom(b []byte) (int, string, error) {
-	r, ok := <-c.replies
-	if !ok {
-		return 0, "", errors.New("socket read error")
+	select {
+	case r, ok := <-c.replies:
+		if !ok {
+			return 0, "", errors.New("socket read error")
+		}
+		return copy(b, r.data), r.from, nil
+	case <-c.closed:
+		return 0, "", errors.New("use of closed socket")
 	}
-	return copy(b, r.data), r.from, nil
 }
 
 func (c *zzUDPConn) WriteTo(b []byte, addr string) (int, error) {
-	verifAssert(c.closes == 0, "no write on a closed socket")
+	if c.closes > 0 {
+		return 0, errors.New("use of closed socket") // a write racing a close just fails
+	}
 	c.writes = append(c.writes, addr)
 	if c.io.writeErr {
 		return 0, errors.New("write error")
@@ -45,6 +52,9 @@ func (c *zzUDPConn) WriteTo(b []byte, addr string) (int, error) {
 
 func (c *zzUDPConn) Close() error {
 	c.closes++
+	if c.closes == 1 {
+		close(c.closed)
+	}
 	return nil
 }
 
@@ -97,7 +107,7 @@ func (io *zzUDPIO) UDP(reqAddr string) (UDPConn, error) {
 	if io.dialErr || !io.allow[reqAddr] {
 		return nil, errors.New("rejected by policy")
 	}
-	c := &zzUDPConn{id: len(io.conns), owner: io.curSess, replies: make(chan zzReply, 4), io: io}
+	c := &zzUDPConn{id: len(io.conns), owner: io.curSess, replies: make(chan zzReply, 4), closed: make(chan struct{}), io: io}
 	io.conns = append(io.conns, c)
 	return c, nil
 }
